@@ -54,6 +54,17 @@ def _impl():
     return DataType, base, to_impl, to_model
 
 
+def _gen(xs):
+    yield from xs
+
+
+CONTAINERS = {
+    'list': list, 'tuple': tuple, 'iterator': iter, 'generator': _gen, 'set': set, 'frozenset': frozenset,
+    'dict': lambda xs: {x: None for x in xs}, 'dict keys view': lambda xs: {x: None for x in xs}.keys(), 'dict values view': lambda xs: dict(enumerate(xs)).values(),
+    'deque': lambda xs: __import__('collections').deque(xs), 'reversed list': lambda xs: reversed(list(xs)), 'map object': lambda xs: map(lambda x: x, xs),
+}
+
+
 def _model_of(expr):
     """Model value of a DataType expression such as '~D.STRING' or 'D.BOOL | D.MESSAGE'."""
     class _M(frozenset):
@@ -151,6 +162,17 @@ def run(unit):
                     r.violation(f'{prop} wrong', {'op': prop, 'a': _w(a)}, f'{prop} on {_w(a)}: expected {n in a}, got {got!r}', size=len(a))
             if to_model(DataType.union([A])) != a:
                 r.violation('union of one set is not that set', {'op': 'union', 'sets': [_w(a)]}, f'union([{_w(a)}])', size=len(a))
+            # the family may be any iterable: every container kind, with one member and with this member twice / plus NONE
+            for cname, mk in CONTAINERS.items():
+                for fam, exp in (([A], a), ([A, I[0]], a), ([I[0], A, A], a), ([A, I[127]], M[127])):
+                    r.count('transitions')
+                    try:
+                        got = to_model(DataType.union(mk(fam)))
+                    except Exception as e:  # noqa: BLE001
+                        got = 'raised ' + type(e).__name__
+                    if got != exp:
+                        r.violation(f'union over a {cname} is not the least upper bound', {'op': 'union', 'sets': [_w(to_model(x)) for x in fam], 'container': cname},
+                                    f'union({cname} of {[_w(to_model(x)) for x in fam]}): expected {_w(exp)}, got {got}', size=len(fam))
             # idempotence
             if a and _cast(DataType, to_model, A, A) != ('ok', a):
                 r.violation('cast is not idempotent', {'op': 'cast', 'a': _w(a), 'b': _w(a)}, f'x.cast(x) != x for {_w(a)}', size=len(a))
@@ -340,6 +362,7 @@ def describe(tier):
     return {
         'rule': 'all 128 type sets; every ordered pair (cast, can_be, union); the seven can_be_* and derived members'
         + '; every triple for associativity / union of three; 24 x 24 pairs of named members, complements and unions each cast in a fresh interpreter (nothing materialised beforehand); long families (all non-empty subsets of every 2-4 base types, chains) for union'
+        + '; union over 12 container kinds (list, tuple, iterator, generator, set, frozenset, dict, dict views, deque, reversed, map) x 128 sets x 4 family shapes'
         + '. A state is one tuple of type sets; a transition one call of the real DataType API; non-trivial = every tuple (all are distinct).',
         'bounds': {'type_sets': 128, 'tuple_arity': 3},
         'exhaustive': True,
